@@ -129,7 +129,7 @@ def run(ctx):
         if not ok:
             ctx.fail("regression", "repaired defect %s is back: %s" % (name, detail), {"type": "defect", "name": name})
     rng = ctx.rng
-    n_graphs = 60 if ctx.quick else 5000
+    n_graphs = 150 if ctx.quick else 5000
     budget = 45 if ctx.quick else 700
     ctx.bound("<= %d random valid rGFAs (1-2 chromosomes of 2-5 reference segments of length 1-3, 0-3 bubbles with separated/adjacent/mixed "
               "haplotype segments, optional inversion / self link / back link / tip) x 2 GAF files each (unstable, stable; text or BGZF at "
